@@ -17,7 +17,7 @@ RULE = ("correlations: Hypothesis draws a table (n 4..40 rows, 1..5 columns, dya
         "DecisionTreeRegressor(random_state), DummyRegressor}, draws 1..4, minmax and a global seed; the function is called on the "
         "DataFrame and on its array under the same seed. Oracle: square k x k, finite entries in [0,1], min<=mean<=max, frame==array "
         "with the frame's labels on both axes, unit diagonal for LinearRegression, input bytes unchanged. "
-        "r2-comparable: positive targets/predictions x (tr, inv_tr) in {None,'log','exp',callable}^2 x optional weights; oracle "
+        "r2-comparable: positive targets/predictions x (tr, inv_tr) in {None,'log','exp',callable}^2 x optional weights x one vector / a column / 2-3 outputs with multioutput in {uniform_average, raw_values, variance_weighted}; oracle "
         "r2_score(f(y), g(p)) with numpy.log/exp written out; both None must raise ValueError. Non-trivial: >=2 columns and draws>=2; "
         "non-identity pair. Distinct = distinct case JSON.")
 ASSUMPTIONS = ["numeric tables only; at least 4 rows (the function splits the rows in two halves)"]
@@ -150,9 +150,15 @@ def _apply(name, v):
 def check_r2(case):
     y = np.array(case["y"], dtype=np.float64)
     p = np.array(case["p"], dtype=np.float64)
-    w = None if case["w"] is None else np.array(case["w"], dtype=np.float64)
+    k = case.get("outputs", 0)
+    if k:
+        # several outputs: (n, k) targets and predictions (k == 1: a column); multioutput says how the k scores are combined
+        n_ = len(y) // k
+        y, p = y[:n_ * k].reshape(n_, k), p[:n_ * k].reshape(n_, k)
+    mo = case.get("multioutput", "uniform_average")
+    w = None if case["w"] is None else np.array(case["w"], dtype=np.float64)[:len(y)]
     tr, inv = case["tr"], case["inv_tr"]
-    facts = dict(tr=tr, inv_tr=inv, weights=w is not None)
+    facts = dict(tr=tr, inv_tr=inv, weights=w is not None, outputs=k, multioutput=mo)
     y0, p0 = y.copy(), p.copy()
     if tr is None and inv is None:
         try:
@@ -160,23 +166,31 @@ def check_r2(case):
         except ValueError:
             return Outcome(["both-none-refused"], False)
         raise Violation("r2:both-none-accepted", "tr=None and inv_tr=None did not raise", facts)
-    got = _sc.r2_score_comparable(y, p, tr=_fn(tr), inv_tr=_fn(inv), sample_weight=w)
-    ref = r2_score(_apply(tr, y), _apply(inv, p), sample_weight=w)
+    if mo == "uniform_average":
+        got = _sc.r2_score_comparable(y, p, tr=_fn(tr), inv_tr=_fn(inv), sample_weight=w)
+        ref = r2_score(_apply(tr, y), _apply(inv, p), sample_weight=w)
+    else:
+        got = _sc.r2_score_comparable(y, p, tr=_fn(tr), inv_tr=_fn(inv), sample_weight=w, multioutput=mo)
+        ref = r2_score(_apply(tr, y), _apply(inv, p), sample_weight=w, multioutput=mo)
     require(np.array_equal(y, y0) and np.array_equal(p, p0), "input-modified", "", facts)
-    require(abs(got - ref) <= 1e-12 * (1 + abs(ref)), "r2:differs", "r2_score_comparable=%r, r2_score(f(y), g(p))=%r for tr=%r inv_tr=%r" % (got, ref, tr, inv), facts)
-    return Outcome(["tr=%s" % tr, "inv_tr=%s" % inv, "weights" if w is not None else "no-weights"], True)
+    got_a, ref_a = np.asarray(got, dtype=np.float64), np.asarray(ref, dtype=np.float64)
+    require(got_a.shape == ref_a.shape, "r2:shape", "r2_score_comparable gives shape %r, r2_score(f(y), g(p)) %r (multioutput=%r, %d outputs)" % (got_a.shape, ref_a.shape, mo, k), facts)
+    require(bool(np.all(np.abs(got_a - ref_a) <= 1e-12 * (1 + np.abs(ref_a)))), "r2:differs", "r2_score_comparable=%r, r2_score(f(y), g(p))=%r for tr=%r inv_tr=%r" % (got, ref, tr, inv), facts)
+    return Outcome(["tr=%s" % tr, "inv_tr=%s" % inv, "weights" if w is not None else "no-weights", "outputs=%d" % k, "multioutput=" + mo], True)
 
 
 @st.composite
 def _r2_cases(draw, tier="quick"):
-    n = draw(st.integers(3, 20))
+    k = draw(st.sampled_from([0, 0, 1, 2, 3]))
+    n = draw(st.integers(3, 20)) * max(k, 1)
     pos = st.integers(1, 400).map(lambda v: v / 16.0)
     y = draw(st.lists(pos, min_size=n, max_size=n))
     if len(set(y)) == 1:
         y[0] = y[0] + 1.0
     names = [None, "log", "exp", "sqrt", "affine"]
     return dict(y=y, p=draw(st.lists(pos, min_size=n, max_size=n)), tr=draw(st.sampled_from(names)), inv_tr=draw(st.sampled_from(names)),
-                w=draw(st.one_of(st.none(), st.lists(st.integers(1, 16).map(lambda v: v / 4.0), min_size=n, max_size=n))))
+                w=draw(st.one_of(st.none(), st.lists(st.integers(1, 16).map(lambda v: v / 4.0), min_size=n, max_size=n))),
+                outputs=k, multioutput=draw(st.sampled_from(["uniform_average", "uniform_average", "raw_values", "variance_weighted"])))
 
 
 CLAUSES = [
